@@ -92,7 +92,7 @@ def work(args):
         res["compiles"] = True
         fired = {}
         for p, os_ in obs.items():
-            fired[p] = sorted({o.key for o in os_ if o.bad()})
+            fired[p] = sorted({o.key for o in os_ if o.bad() and o.status != "unclassified"})
         res["fired"] = fired
         if kind == "mutant":
             ok = True
